@@ -66,6 +66,12 @@ Fixpoint proc (e : sexp) (acc : list consumer) : list consumer :=
 (* the dereferences of the expression that are reported when every variable may be nil: what is left in the fresh scope *)
 Definition reported (e : sexp) : list nat := map snd (proc e []).
 
+(* the statement the expression belongs to: `after` are the consumers of the code that FOLLOWS it (the backward analysis has
+   them already).  Since the repair of finding F100 the expression is computed in a fresh scope and merged; before, it was
+   computed in the tree that holds `after`, and its checks discharged consumers of the code after the statement *)
+Definition proc_stmt (e : sexp) (after : list consumer) : list consumer := proc e [] ++ after.
+Definition proc_stmt_before_F100 (e : sexp) (after : list consumer) : list consumer := proc e after.
+
 (* ---- the class on which the attribution is right: every LEFT operand is a pure tree of the operator it stands under *)
 Fixpoint pure_and (e : sexp) : bool :=
   match e with SAnd x y => pure_and x && pure_and y | SOr _ _ => false | _ => true end.
